@@ -21,6 +21,7 @@ import (
 
 	"golang.org/x/sys/unix"
 
+	"github.com/panjf2000/gnet/v2/internal/vhook"
 	"github.com/panjf2000/gnet/v2/pkg/errors"
 	"github.com/panjf2000/gnet/v2/pkg/netpoll"
 	"github.com/panjf2000/gnet/v2/pkg/queue"
@@ -30,6 +31,7 @@ import (
 func (el *eventloop) accept0(fd int, _ netpoll.IOEvent, _ netpoll.IOFlags) error {
 	for {
 		nfd, sa, err := socket.Accept(fd)
+		vhook.Sys("acc.accept", nil, nfd, fd, err)
 		switch err {
 		case nil:
 		case unix.EAGAIN: // the Accept queue has been drained out, we can return now
@@ -65,10 +67,12 @@ func (el *eventloop) accept0(fd int, _ netpoll.IOEvent, _ netpoll.IOFlags) error
 
 		el := el.engine.eventLoops.next(remoteAddr)
 		c := newStreamConn(network, nfd, el, sa, el.listeners[fd].addr, remoteAddr)
+		vhook.Gate("acc.accepted", c, nfd)
 		err = el.poller.Trigger(queue.HighPriority, el.register, c)
 		if err != nil {
 			el.getLogger().Errorf("failed to enqueue the accepted socket fd=%d to poller: %v", c.fd, err)
 			_ = unix.Close(nfd)
+			vhook.Sys("acc.close", c, nfd, 0, err)
 			c.release()
 		}
 	}
@@ -81,6 +85,7 @@ func (el *eventloop) accept(fd int, ev netpoll.IOEvent, flags netpoll.IOFlags) e
 	}
 
 	nfd, sa, err := socket.Accept(fd)
+	vhook.Sys("acc.accept", nil, nfd, fd, err)
 	switch err {
 	case nil:
 	case unix.EINTR, unix.EAGAIN, unix.ECONNRESET, unix.ECONNABORTED:
